@@ -161,6 +161,75 @@ def make_ob(magic, version, get_code, tier):
               oracle="format rule (PEP 552 / importlib)")
 
 
+def hdrtext_ob(magic, version, tier):
+    """the header lines pydisasm -F header prints (show_module_header) carry exactly the fields the format stores"""
+    import xdis.magics as M
+    kind = header_kind(version, magic, False)
+    nhdr = {"ts": 4, "ts+size": 8, "pep552": 12}[kind]
+    params = [("flag", (0, 3)), ("a", (0, 3)), ("b", (0, 3)), ("c", (0, 3))]
+
+    def fields(kw):
+        ts = [kw["a"], 0x12, 0x34, 0x56]
+        size = [kw["b"], 0xfe, 0x00, 0x80]
+        if kind == "ts":
+            return ts
+        if kind == "ts+size":
+            return ts + size
+        if kw["flag"] % 2 == 1:
+            return [kw["flag"], 0, 0, 0] + [kw["c"], 1, 2, 3, 4, 5, 6, 0xf7]
+        return [kw["flag"], 0, 0, 0] + ts + size
+
+    def run(kw, carrier):
+        import io as _io
+        import re
+        import xdis.load as LD
+        from xdis.disasm import show_module_header
+        items = list(M.int2magic(magic)) + fields(kw)
+        res = LD.load_module_from_file_object(SymReader(carrier(items)), filename="x.pyc", get_code=False)
+        out = _io.StringIO()
+        show_module_header(res[0], None, res[1], out=out, is_pypy=res[4], magic_int=res[2], source_size=res[5], sip_hash=res[6],
+                           header=True, show_filename=False)
+        text = out.getvalue()
+        h = fields(kw)
+        want_ts = want_size = want_hash = None
+        if kind == "ts":
+            want_ts = u32(h[0:4])
+        elif kind == "ts+size":
+            want_ts, want_size = u32(h[0:4]), u32(h[4:8])
+        elif h[0] % 2 == 1:
+            want_hash = u32(h[4:8]) + 4294967296 * u32(h[8:12])
+        else:
+            want_ts, want_size = u32(h[4:8]), u32(h[8:12])
+        m_ts = re.search(r"^# Timestamp in code: (\d+)", text, re.M)
+        m_sz = re.search(r"^# Source code size mod 2\*\*32: (\d+) bytes", text, re.M)
+        m_h = re.search(r"^# SipHash:\s+0x([0-9a-f]+)", text, re.M)
+        for nm, mm, want, base in (("timestamp", m_ts, want_ts, 10), ("source size", m_sz, want_size, 10), ("SipHash", m_h, want_hash, 16)):
+            if want is None:
+                if mm is not None:
+                    return "header prints a %s line although the %d.%d format stores none: %r" % (nm, version[0], version[1], mm.group(0))
+            else:
+                if mm is None or int(mm.group(1), base) != want:
+                    return "header %s line %r, file stores %r" % (nm, mm.group(0) if mm else None, want)
+        if ("bytecode %d.%d" % version) not in text or ("(%d)" % (3187 if magic == 48 else magic)) not in text:
+            return "header does not name version/magic: %r" % text[:120]
+        return None
+
+    def body(**kw):
+        d = run(kw, mkbytes)
+        assert d is None, d
+
+    def replay(**kw):
+        try:
+            return run(kw, lambda it: bytes(it))
+        except Exception as e:
+            return "header rendering raises %s: %s" % (type(e).__name__, str(e)[:120])
+
+    return Ob(id="C06.m%d.hdrtext" % magic, prop="C06", params=params, body=body, replay=replay, funcs=FUNCS + ["xdis.disasm.show_module_header"],
+              opaque_repr=False, region="%s.hdrtext" % kind, skeleton="magic %d: header text of show_module_header" % magic,
+              bound="flag word 0..3; low byte of timestamp/size/hash 0..3 (the text renders them through datetime/%d: realised)",
+              timeout=90, oracle="format rule (PEP 552 / importlib)")
+
+
 def generate(tier, seed):
     import io
     import os
@@ -188,4 +257,7 @@ def generate(tier, seed):
     for m, v in sorted(ms.items()):
         obs.append(make_ob(m, v, False, tier))
         obs.append(make_ob(m, v, True, tier))
+    for m, v in sorted(ms.items()):
+        if tier == "thorough" or m in (62211, 3230, 3379, 3394, 3413, 3495, 3571, 20121, 240):
+            obs.append(hdrtext_ob(m, v, tier))
     return obs
